@@ -282,6 +282,17 @@ def _call_step(step, objs, results, findings, where, type_only, iso=None):
                 return _soak(args, findings, where, type_only)
             if fn == 'caller.alloc':
                 return ('ok', np.zeros((int(args[0]), 2)))
+            if fn == 'caller.fresh':
+                src, factor, flip = args
+                arr = np.empty((len(src), 2))
+                arr[:, 0] = src[:, 0]
+                arr[:, 1] = (src[::-1, 1] if flip else src[:, 1]) * factor
+                return ('ok', arr)
+            if fn == 'caller.drop':
+                j = int(args[0])
+                if j in results:
+                    results[j] = ('dropped',)      # the caller lets go of the array; its memory may be reused
+                return ('ok', None)
             if fn == 'caller.fill':
                 buf, src, factor, flip = args
                 buf[:, 0] = src[:, 0]
@@ -587,6 +598,9 @@ def run_sim(plan, stats):
                     live.discard((cc, kk))
         # P3: a result, once returned, never changes (no view into a buffer the library reuses)
         for (cc, kk) in list(live):
+            if results[cc][kk][0] != 'ok':
+                live.discard((cc, kk))
+                continue
             if results[cc][kk][0] == 'ok' and _enc_outcome(results[cc][kk]) != encs[cc][kk]:
                 f0 = plan['clients'][cc]['steps'][kk]['fn']
                 findings.append({'oracle': 'P3', 'key': 'P3:%s' % f0, 'where': [si, c, k], 'fn': step['fn'],
